@@ -73,8 +73,14 @@ class RunTimeout(BaseException):
     """A converted function (or a conversion) that does not come back: reported, never waited for."""
 
 
+_ARMED = [False]
+
+
 def _on_alarm(*a):
-    raise RunTimeout()
+    # a signal that was already on its way when the timer was cancelled must not hit whatever runs next
+    if _ARMED[0]:
+        _ARMED[0] = False
+        raise RunTimeout()
 
 
 RUN_SECONDS = 5.0          # CPU seconds of the worker (ITIMER_PROF: a loaded machine cannot cause a timeout); every
@@ -83,20 +89,31 @@ CONVERT_SECONDS = 60.0
 
 
 def observe(module, fn, p, decisions, recorder=None, inp=None):
+    """One run of fn in a fresh tracer world.  A run that exceeds its CPU budget is repeated once with a budget twelve times
+    as large before it is reported as not terminating: the first call of a module-level callee converts it on the spot, and
+    on a cold machine that conversion has been seen to take more than the budget of a run (a check run in a fresh sandbox
+    reported a timeout that no other run of the same execution reproduced)."""
     import signal
-    run = world(decisions, module)
-    reset_globals(module, p)
-    if recorder is not None:
-        recorder.run = run
     signal.signal(signal.SIGPROF, _on_alarm)
-    signal.setitimer(signal.ITIMER_PROF, RUN_SECONDS)
-    try:
+    for budget in (RUN_SECONDS, 12 * RUN_SECONDS):
+        run = world(decisions, module)
+        reset_globals(module, p)
+        if recorder is not None:
+            recorder.run = run
+            del recorder.calls[:]
+            del recorder.events[:]
+            recorder.counts = {}
+        signal.setitimer(signal.ITIMER_PROF, budget)
+        _ARMED[0] = True
         try:
-            out = mp.outcome(fn, mp.main_args(p, inp))
-        finally:
-            signal.setitimer(signal.ITIMER_PROF, 0)
-    except RunTimeout:
-        out = ['timeout', 'no result after %g s' % RUN_SECONDS]
+            try:
+                out = mp.outcome(fn, mp.main_args(p, inp))
+            finally:
+                _ARMED[0] = False
+                signal.setitimer(signal.ITIMER_PROF, 0)
+            break
+        except RunTimeout:
+            out = ['timeout', 'no result after %g s of CPU time (and none after %g s before)' % (budget, RUN_SECONDS)]
     return dict(log=run.log, out=out, used=run.di, gl=mp.globals_now(p, module))
 
 
@@ -223,10 +240,12 @@ def _replay_chunk(args):
                 import signal
                 signal.signal(signal.SIGPROF, _on_alarm)
                 signal.setitimer(signal.ITIMER_PROF, CONVERT_SECONDS)
+                _ARMED[0] = True
                 try:
                     try:
                         conv[o['name']] = convert_fn(fn, o)
                     finally:
+                        _ARMED[0] = False
                         signal.setitimer(signal.ITIMER_PROF, 0)
                 except RunTimeout:
                     conv[o['name']] = None
